@@ -1,0 +1,241 @@
+//! Read-only inspector over the private state of a map (`--cfg flurry_verif` only).
+//!
+//! Lives below `map` so that it can see the private fields; it performs plain loads that do
+//! not go through the seams (no yield points), so calling it never perturbs a simulated run.
+#![allow(missing_docs, missing_debug_implementations, unreachable_pub, dead_code)]
+
+use super::*;
+use crate::node::{BinEntry, TreeNode};
+
+pub const RESIZE_STAMP_BITS: usize = super::RESIZE_STAMP_BITS;
+pub const RESIZE_STAMP_SHIFT: usize = super::RESIZE_STAMP_SHIFT;
+pub const MAX_RESIZERS: isize = super::MAX_RESIZERS;
+pub const MAXIMUM_CAPACITY: usize = super::MAXIMUM_CAPACITY;
+pub const MIN_TREEIFY_CAPACITY: usize = super::MIN_TREEIFY_CAPACITY;
+pub const TREEIFY_THRESHOLD: usize = super::TREEIFY_THRESHOLD;
+pub const UNTREEIFY_THRESHOLD: usize = super::UNTREEIFY_THRESHOLD;
+
+/// The stamp `transfer`/`help_transfer`/`add_count` use for a table of length `n`.
+pub fn resize_stamp(n: usize) -> isize {
+    HashMap::<(), (), ()>::resize_stamp(n)
+}
+
+#[derive(Debug)]
+pub struct NodeDump<'g, K, V> {
+    pub addr: usize,
+    pub hash: u64,
+    pub key: &'g K,
+    /// `None` if the value pointer is null (never legal for a linked node)
+    pub value: Option<&'g V>,
+    pub value_addr: usize,
+    pub next: usize,
+    // tree links (0 for list nodes)
+    pub parent: usize,
+    pub left: usize,
+    pub right: usize,
+    pub prev: usize,
+    pub red: bool,
+    pub lock_held: bool,
+}
+
+#[derive(Debug)]
+pub enum BinDump<'g, K, V> {
+    Empty,
+    Moved,
+    /// nodes in `next` order
+    List {
+        locked: bool,
+        nodes: Vec<NodeDump<'g, K, V>>,
+    },
+    /// nodes in `first`/`next` order
+    Tree {
+        addr: usize,
+        locked: bool,
+        lock_state: i64,
+        waiter_null: bool,
+        root: usize,
+        first: usize,
+        nodes: Vec<NodeDump<'g, K, V>>,
+    },
+    /// anything else at the head of a bin (never legal); the payload is a description
+    Corrupt(&'static str),
+}
+
+#[derive(Debug)]
+pub struct TableDump<'g, K, V> {
+    pub addr: usize,
+    pub bins: Vec<BinDump<'g, K, V>>,
+    /// address of this table's `next_table` (0 = null)
+    pub next_table: usize,
+}
+
+#[derive(Debug)]
+pub struct Dump<'g, K, V> {
+    pub size_ctl: isize,
+    pub transfer_index: isize,
+    pub count: isize,
+    /// address of `HashMap::next_table` (0 = null)
+    pub map_next_table: usize,
+    /// `None` when no table was ever allocated
+    pub table: Option<TableDump<'g, K, V>>,
+    /// the in-progress table, if a resize is under way
+    pub next: Option<TableDump<'g, K, V>>,
+    pub collector: usize,
+}
+
+const MAX_CHAIN: usize = 1 << 16;
+
+unsafe fn raw<'g, T>(a: &Atomic<T>) -> Shared<'g, T> {
+    // an unprotected guard loads without touching seize's reservation state; the caller holds a
+    // real guard of the map's collector for as long as the dump lives
+    let g = Guard::unprotected();
+    // safety: transmuting only the lifetime; validity is the caller's guard
+    std::mem::transmute::<Shared<'_, T>, Shared<'g, T>>(a.peek(&g))
+}
+
+impl<T> Atomic<T> {
+    /// Plain load that bypasses the seam.
+    pub(crate) fn peek<'g>(&self, guard: &'g Guard<'_>) -> Shared<'g, T> {
+        self.load_unhooked(guard)
+    }
+}
+
+unsafe fn dump_node<'g, K, V>(p: Shared<'g, BinEntry<K, V>>) -> Option<NodeDump<'g, K, V>> {
+    let addr = p.as_ptr() as usize;
+    let (n, tn): (&'g Node<K, V>, Option<&'g TreeNode<K, V>>) = match **p.deref() {
+        BinEntry::Node(ref n) => (n, None),
+        BinEntry::TreeNode(ref t) => (&t.node, Some(t)),
+        _ => return None,
+    };
+    let v = raw(&n.value);
+    Some(NodeDump {
+        addr,
+        hash: n.hash,
+        key: &n.key,
+        value: v.as_ref().map(|l| &**l),
+        value_addr: v.as_ptr() as usize,
+        next: raw(&n.next).as_ptr() as usize,
+        parent: tn.map_or(0, |t| raw(&t.parent).as_ptr() as usize),
+        left: tn.map_or(0, |t| raw(&t.left).as_ptr() as usize),
+        right: tn.map_or(0, |t| raw(&t.right).as_ptr() as usize),
+        prev: tn.map_or(0, |t| raw(&t.prev).as_ptr() as usize),
+        red: tn.map_or(false, |t| t.red.load(Ordering::SeqCst)),
+        lock_held: n.lock.is_locked(),
+    })
+}
+
+unsafe fn dump_chain<'g, K, V>(
+    mut p: Shared<'g, BinEntry<K, V>>,
+) -> Result<Vec<NodeDump<'g, K, V>>, &'static str> {
+    let mut out = Vec::new();
+    while !p.is_null() {
+        if out.len() > MAX_CHAIN {
+            return Err("cycle in next chain");
+        }
+        match dump_node(p) {
+            Some(n) => out.push(n),
+            None => return Err("next chain leads to a non-node entry"),
+        }
+        p = match **p.deref() {
+            BinEntry::Node(ref n) => raw(&n.next),
+            BinEntry::TreeNode(ref t) => raw(&t.node.next),
+            _ => unreachable!(),
+        };
+    }
+    Ok(out)
+}
+
+unsafe fn dump_table<'g, K, V>(t: Shared<'g, Table<K, V>>) -> TableDump<'g, K, V> {
+    let tab = t.deref();
+    let unprot = Guard::unprotected();
+    let mut bins = Vec::with_capacity(tab.len());
+    for i in 0..tab.len() {
+        let b: Shared<'g, BinEntry<K, V>> = std::mem::transmute(tab.bin_unhooked(i, &unprot));
+        if b.is_null() {
+            bins.push(BinDump::Empty);
+            continue;
+        }
+        bins.push(match **b.deref() {
+            BinEntry::Moved => BinDump::Moved,
+            BinEntry::Node(ref head) => match dump_chain(b) {
+                Ok(nodes) => BinDump::List {
+                    locked: head.lock.is_locked(),
+                    nodes,
+                },
+                Err(e) => BinDump::Corrupt(e),
+            },
+            BinEntry::Tree(ref tb) => match dump_chain(raw(&tb.first)) {
+                Ok(nodes) => BinDump::Tree {
+                    addr: b.as_ptr() as usize,
+                    locked: tb.lock.is_locked(),
+                    lock_state: tb.lock_state.peek(),
+                    waiter_null: raw(&tb.waiter).is_null(),
+                    root: raw(&tb.root).as_ptr() as usize,
+                    first: raw(&tb.first).as_ptr() as usize,
+                    nodes,
+                },
+                Err(e) => BinDump::Corrupt(e),
+            },
+            BinEntry::TreeNode(_) => BinDump::Corrupt("TreeNode at the head of a bin"),
+        });
+    }
+    let nt: Shared<'g, Table<K, V>> = std::mem::transmute(tab.next_table_unhooked(&unprot));
+    TableDump {
+        addr: t.as_ptr() as usize,
+        bins,
+        next_table: nt.as_ptr() as usize,
+    }
+}
+
+impl<K, V, S> HashMap<K, V, S> {
+    /// Snapshot of the whole structure. The caller must hold `guard` (of this map's collector)
+    /// for as long as the dump is used. Bins whose lock is held may be mid-update.
+    pub fn verif_dump<'g>(&'g self, guard: &'g Guard<'_>) -> Dump<'g, K, V> {
+        self.check_guard(guard);
+        unsafe {
+            let t: Shared<'g, Table<K, V>> = raw(&self.table);
+            let nt: Shared<'g, Table<K, V>> = raw(&self.next_table);
+            Dump {
+                size_ctl: self.size_ctl.peek(),
+                transfer_index: self.transfer_index.peek(),
+                count: self.count.peek(),
+                map_next_table: nt.as_ptr() as usize,
+                table: if t.is_null() {
+                    None
+                } else {
+                    Some(dump_table(t))
+                },
+                next: if nt.is_null() {
+                    None
+                } else {
+                    Some(dump_table(nt))
+                },
+                collector: &self.collector as *const Collector as usize,
+            }
+        }
+    }
+
+    /// Address identifying this map's collector in seam reports.
+    pub fn verif_collector_addr(&self) -> usize {
+        &self.collector as *const Collector as usize
+    }
+
+    /// Length of the current table (0 if none), without touching any seam.
+    pub fn verif_table_len(&self) -> usize {
+        unsafe {
+            let t = raw(&self.table);
+            if t.is_null() {
+                0
+            } else {
+                t.deref().len()
+            }
+        }
+    }
+}
+
+impl<T, S> crate::HashSet<T, S> {
+    /// The map behind the set, for the inspector.
+    pub fn verif_map(&self) -> &HashMap<T, (), S> {
+        &self.map
+    }
+}
